@@ -4,6 +4,7 @@ import json,sys
 props=[json.loads(l) for l in open('/verif/properties.jsonl')]
 CLAIMED={
  'C01':('exploration','callback/store monitor over adversarial inbound histories on the real engine'),
+ 'C02':('exploration','session goroutine and 1-4 sender goroutines as controlled tasks under the seeded cooperative scheduler (cooperative mutexes by build-time instrumentation, yields at every seam of the send path); numbering/persist-before-send/replay-exclusion invariants + porcupine against a sequencer'),
  'C03':('exploration','reference replay computed from the bytes the engine itself saved (store wrapper) and the independent scanner; coverage/contiguity/body-identity oracle'),
  'C04':('exploration','recovery model built from the stub peer\'s own actions; ResendRequest rules + end-to-end delivery'),
  'C05':('exploration','real Initiator + real Acceptor on the simulated network (driver-pumped links, one delivery per step) and simulated disk; cuts with byte-granular loss, half-open links, refused reconnects, crash/restart on process-crash and power-loss images; end-to-end exactly-once/in-order oracle after a fault-free settle period'),
